@@ -227,6 +227,9 @@ func (s *cacheState) verify(t *rapid.T, i int) {
 		want := e.intact && lifeOKV2(leaf, nowSec) && grantsV2(leaf, r)
 		s.log = append(s.log, fmt.Sprintf("verify #%d %+v at %dms (want accept=%v)", i, r, nowMs, want))
 		got, err := s.w.svc.VerifySessionTokenMessage(e.v2m, r.Verb, cnrs[r.Cnr])
+		if lifeOKV2(leaf, nowSec) != lifeOKV2(leaf, nowMs/1000) {
+			break // sub-second chain time decides: not asserted (see v2Case.ambiguous)
+		}
 		if (err == nil) != want {
 			t.Fatalf("step %d: VerifySessionTokenMessage(%s): err=%v, reference accept=%v (intact=%v life=%v grants=%v)\nhistory:\n%s",
 				len(s.log), e.name, err, want, e.intact, lifeOKV2(leaf, nowSec), grantsV2(leaf, r), strings.Join(s.log, "\n"))
@@ -325,7 +328,7 @@ func TestC30SharedCache(t *testing.T) {
 		defer func() {
 			var ls []string
 			for f := range s.flags {
-				ls = append(ls, f)
+				ls = append(ls, "sc/"+f)
 			}
 			nontrivial := s.flags["verify-after-store"] || s.flags["verify-after-family"] || s.flags["store-after-verify"]
 			rec.Case(nontrivial, strings.Join(s.log, ";"), ls...)
